@@ -56,7 +56,7 @@ def r1_who_keeps_stopped_pending(ctx):
         for c in si.calls:
             for a in c.args:
                 p = op_place(a)
-                if "mv" in a and p is not None and not p.get("p") and si.locals[p["l"]]["ty"] == "jsonrpsee_server::future::StopHandle" and si.local_name(p["l"]) == "stop_handle":
+                if "mv" in a and p is not None and not p.get("p") and si.locals[p["l"]]["ty"] == "jsonrpsee_server::future::StopHandle" and _from_env(si, p["l"]):
                     moved.append(c)
         R.check(not moved, "C10.R1", "start_inner:stop-handle-not-moved", "start_inner only clones its StopHandle", "start_inner moves its own StopHandle into %s" % [short(c.name()) for c in moved], "%s:%d" % (si.file, si.lo))
         dd = [c for c in si.calls_to(r"^std::mem::drop$") if "mpsc::Sender<()>" in si.locals[op_place(c.args[0])["l"]]["ty"]]
@@ -113,6 +113,16 @@ def r1_who_keeps_stopped_pending(ctx):
         # the state must exist: the params' conn field is kept as a whole
         has_state = any(l["ty"] == "jsonrpsee_server::server::ConnectionState" for l in bt.locals)
         R.check(has_state, "C10.R1", "background_task:owns-state", "background_task owns the ConnectionState as a whole", "background_task no longer holds the ConnectionState as one value (its StopHandle may be released separately)", "%s:%d" % (bt.file, bt.lo))
+
+
+def _from_env(body, l):
+    """the local holds a value captured from the enclosing fn (moved out of the coroutine environment), i.e. a parameter"""
+    for bi, si_, dpl, src in body.defs.get(l, []):
+        if src[0] == "rv" and src[1]["k"] == "use":
+            q = op_place(src[1]["op"])
+            if q is not None and q["l"] == 1 and any(isinstance(e, dict) and "f" in e for e in q.get("p", [])):
+                return True
+    return 1 <= l <= body.argc
 
 
 def _orig_drop_sites(body, ty):
@@ -212,7 +222,7 @@ def r3_writer_stops_last(ctx):
     oks = False
     for c in inner:
         l1 = tr.origins(st, c.args[1])
-        if any(l.kind == "param" and l.detail.get("name") == "stop" or "stop" in " ".join(l.chain) for l in l1):
+        if any(l.kind == "param" and "oneshot::Receiver<()>" in (l.detail.get("ty") or "") for l in l1):
             oks = True
     R.check(oks, "C10.R3", "send_task:stop-is-watched", "the writer watches the stop signal", "the writer no longer watches the stop signal", "%s:%d" % (st.file, st.lo))
 
